@@ -157,6 +157,60 @@ pub fn run(cx: &mut Ctx, args: &Args, rng: &mut Rng) -> i32 {
             cx.emit(e);
         }
     }
+    // phase 3: first-use race.  Many fresh shared instances; for each one all threads pass a spin barrier and make
+    // their very first call (a decryption if the type can decrypt) on it at the same moment: lazily derived
+    // per-instance state must not be observable half-built.
+    let rounds = args.num("race-rounds", 24) as usize;
+    let mut race: Vec<(usize, u64, Shared)> = Vec::new();
+    for p in plans.iter() {
+        if !(cx.types[p.ti].sync)() {
+            continue;
+        }
+        for _ in 0..rounds {
+            if let Some((id, inst)) = cx.construct(p.ti, "slice", &p.key, "race") {
+                race.push((p.ti, id, Shared(inst)));
+            }
+        }
+    }
+    let race = Arc::new(race);
+    let gate = Arc::new(std::sync::atomic::AtomicUsize::new(0));
+    let results: Vec<Vec<Value>> = std::thread::scope(|scope| {
+        let mut hs = Vec::new();
+        for th in 0..nthreads {
+            let race = race.clone();
+            let plans = plans.clone();
+            let gate = gate.clone();
+            let cfg = cx.cfg.clone();
+            hs.push(scope.spawn(move || {
+                let mut lcx = Ctx { out, next_id: (th as u64 + 1) * 100_000 + 80_000, run: 0, cfg, types: types::all_types(), buf: Some(Vec::new()) };
+                for (k, (pti, id, sh)) in race.iter().enumerate() {
+                    let pp = plans.iter().find(|q| q.ti == *pti).unwrap();
+                    let b = &pp.blocks[0];
+                    // spin barrier: everybody arrives, then everybody goes
+                    gate.fetch_add(1, std::sync::atomic::Ordering::AcqRel);
+                    while gate.load(std::sync::atomic::Ordering::Acquire) < (k + 1) * nthreads {
+                        std::hint::spin_loop();
+                    }
+                    if lcx.one(*id, sh.0.as_ref(), Dir::Dec, Shape::B2b, b).is_none() {
+                        lcx.one(*id, sh.0.as_ref(), Dir::Enc, Shape::B2b, b);
+                    }
+                }
+                lcx.buf.take().unwrap()
+            }));
+        }
+        hs.into_iter().map(|h| h.join().unwrap_or_default()).collect()
+    });
+    for (th, evs) in results.into_iter().enumerate() {
+        for mut e in evs {
+            e["th"] = json!(th);
+            cx.emit(e);
+        }
+    }
+    if let Ok(r) = Arc::try_unwrap(race) {
+        for (_, id, s) in r {
+            cx.drop_inst(id, s.0);
+        }
+    }
     // single-block observation of every lane input used above, on fresh instances (obligations)
     for p in plans.iter() {
         if let Some((id, inst)) = cx.construct(p.ti, "slice", &p.key, "fresh") {
